@@ -10,6 +10,7 @@
 use crate::fw::*;
 
 mod cfg;
+mod frag;
 mod oracle;
 mod refdec;
 
@@ -167,7 +168,45 @@ fn run_case(ctx: &mut Ctx, t: &Tables, pay: &[u8], c: Cfg, plen: usize, lim: Opt
 //   + 1                      ARP: 13 stackings x 5 packets
 //   + 8                      all 2^9 TCP flag subsets: 2 carriers x 4 option lists
 //   + 8                      raw write with every ip number 0..=255 on every net
+//   + 5                      fragmenting IPv4 headers: one unit per ip(IpHeaders::Ipv4) net
 //   + N                      limit sweeps: one unit per net
+const FRAG_UNITS: u64 = 5;
+/// (MF, fragment offset in 8 byte units) of the fragmenting headers; each with DF 0 and 1
+const FRAGS: &[(bool, u16)] = &[(true, 0), (false, 1), (true, 1), (true, 185), (false, 0x1fff), (true, 0x1fff)];
+
+fn frag_transports() -> Vec<TrC> {
+    vec![TrC::Udp, TrC::Tcp { flags: 0x012, opts: 0 }, TrC::Tcp { flags: 0x1ff, opts: 2 }, TrC::Icmp4EchoReq, TrC::Raw(253), TrC::Raw(17), TrC::Raw(6)]
+}
+
+fn run_frag_case(ctx: &mut Ctx, t: &Tables, pay: &[u8], c: Cfg, plen: usize, df: bool, mf: bool, off: u16) {
+    ctx.case(
+        None,
+        || CaseDesc {
+            shape: format!("{}-fragmenting", shape(&c)),
+            text: format!("{} but with dont_fragment:{}, more_fragments:{}, fragment_offset:{} ; payload = {} bytes, payload[i] = (i*7+3) mod 256 ; compared with the same configuration as shown (DF 1, MF 0, offset 0)", chain(&c, t), df, mf, off, plen),
+            rank: (complexity(&c) + 20) * 1_000_000 + plen as u64,
+        },
+        |case| {
+            let o = frag::check(&c, t, &pay[..plen], df, mf, off, case);
+            case.nontrivial();
+            match o {
+                Outcome::Ok => {
+                    case.reach(if off != 0 { "ok:fragmenting:offset" } else { "ok:fragmenting:mf-only" });
+                    if !df {
+                        case.reach("ok:fragmenting:df-clear");
+                    }
+                    case.outcome(format!("ok:frag:{}", shape(&c)));
+                }
+                Outcome::Err(class) => {
+                    case.reach("err:fragmenting:payload-too-big");
+                    case.outcome(format!("err:frag:{}:{}", class, shape(&c)));
+                }
+                Outcome::Bad => case.outcome(format!("violation:frag:{}", shape(&c))),
+            }
+        },
+    );
+}
+
 struct Layout {
     s: u64,
     n: u64,
@@ -177,7 +216,7 @@ impl Layout {
         Layout { s: stackings().len() as u64, n: nets().len() as u64 }
     }
     fn total(&self) -> u64 {
-        self.s * self.n + 1 + 8 + 8 + self.n
+        self.s * self.n + 1 + 8 + 8 + FRAG_UNITS + self.n
     }
 }
 
@@ -195,6 +234,8 @@ impl Check for C10 {
              x {} nets {{ipv4() | ipv6() | ip(Ipv4) x (options 0/40, AH none/12-byte ICV; options 4 + 1016-byte ICV) | ip(Ipv6) x all 48 representable subsets of the slots hop-by-hop, dest options, routing, final dest options, fragment(offset 0, M 0), auth; plus all six at maximum size}} \
              x {} transports {{udp | tcp x 4 option lists (none, MSS, MSS+WS+SACKperm+TS via options(), 40 bytes via options_raw()) x flags (none, all) | tcp_header x 2 | icmpv4 x all {} typed variants | icmpv4_raw x {} | icmpv4 echo helpers | icmpv6 x all {} typed variants | icmpv6_raw x {} | icmpv6 echo helpers | raw write(ip number 253, 59)}} \
              x payload lengths {}{}; plus arp x 5 packets (hw/proto address sizes 0, 1, 6/4, 16, 255) on the 13 link stackings that offer it; all 2^9 TCP flag subsets on ethernet2/ipv4 and ip/ipv6 x 4 option lists x the payload lengths; raw write with every ip number 0..=255 on every net; \
+             fragmenting IPv4 headers: the 5 ip(Ipv4) nets x 14 stackings x 7 transports {{udp, tcp x 2, icmpv4 echo, raw 253/17/6}} x (MF, offset) in {{(1,0),(0,1),(1,1),(1,185),(0,8191),(1,8191)}} x DF {{0,1}} x the payload lengths (+ total-length limit-2..=limit+2 on one stacking), \
+             oracle there: same size/bytes through all three writers, bytes identical to the (DF 1, MF 0, offset 0) sibling except flags/offset word and header checksum, the word carries exactly the supplied bits, header checksum verifies, strict parser accepts, returns the fragment fields, flags the payload as fragmented, decodes no transport and hands out the bytes behind the IP layer; Err iff the sibling is refused; \
              and on one stacking per (net, transport) every payload length in limit{} of the governing length field (IPv4 total length, IPv6 payload length, UDP length) for {} transports. payload[i] = i*7+3. \
              oracle: size(), write, write_to_vec, write_to_slice never panic, succeed together, give identical bytes of length size(); the reference decoder (own code from RFC 791/8200/4302/768/9293/792/4443/826, 802.1Q, LINUX_SLL; strict: every length field == real size, IPv4 header / UDP / TCP / ICMP checksums verify by an own RFC 1071 sum over an own pseudo header, UDP checksum != 0, every ether type / protocol number / next header decodes as the layer it names) and SlicedPacket::from_ethernet/from_linux_sll/from_ip accept the bytes and give back every configured field, option, extension header (RFC 8200 order) and the payload; \
              Err (all three writers) iff payload exceeds the governing field or ICMPv6 sits on IPv4, and bytes written before the error contain no length field that differs from the real size. \
@@ -235,6 +276,10 @@ impl Check for C10 {
             "limit-exact-ok",
             "all-512-tcp-flags",
             "exempt:icmpv4-timestamp-with-payload-not-parsed-back",
+            "ok:fragmenting:offset",
+            "ok:fragmenting:mf-only",
+            "ok:fragmenting:df-clear",
+            "err:fragmenting:payload-too-big",
         ]
         .iter()
         .map(|s| s.to_string())
@@ -341,6 +386,33 @@ impl Check for C10 {
             return;
         }
         u -= 8;
+
+        // ---- fragmenting IPv4 headers
+        if u < FRAG_UNITS {
+            let net = ns.iter().copied().filter(|n| matches!(n, NetC::V4Hdr { .. })).nth(u as usize).expect("five ip(IpHeaders::Ipv4) nets");
+            for (si, &(link, vlan)) in st.iter().enumerate() {
+                for tr in frag_transports() {
+                    let c = Cfg { link, vlan, net, tr };
+                    let mut ls = lens.clone();
+                    if si == (u as usize) % st.len() {
+                        let lim = limit(&c, &t);
+                        ls.extend(lim - 2..=lim + 2);
+                    }
+                    for &(mf, off) in FRAGS {
+                        for df in [true, false] {
+                            for &plen in &ls {
+                                run_frag_case(ctx, &t, &pay, c, plen, df, mf, off);
+                                if ctx.done() {
+                                    return;
+                                }
+                            }
+                        }
+                    }
+                }
+            }
+            return;
+        }
+        u -= FRAG_UNITS;
 
         // ---- limit sweeps
         let ni = u as usize;
